@@ -60,11 +60,15 @@ def yaml_report(ps0: bool, ps1: bool, ps2: bool, ps3: bool) -> bool:
     from tola.assembly.scripts import pretext_to_asm as P2A
     P2A.click.echo = lambda *a, **k: None
     st = [1 if b else -1 for b in (ps0, ps1, ps2, ps3)]
-    inp, lay = mk_input([("hap1_s_1", "FGF", (40, 7, 30)), ("hap2_s_2", "FGF", (35, 9, 25)), ("c_3", "F", (20,)), ("c_4", "F", (22,)), ("h_5", "F", (18,))])
+    inp, lay = mk_input([("hap1_s_1", "FGF", (40, 7, 30)), ("hap2_s_2", "FGF", (35, 9, 25)), ("c_3", "F", (20,)), ("c_4", "F", (22,)), ("h_5", "F", (18,)), ("c_6", "F", (60,))])
     prtxt = mk_pretext([("Scaffold_1", [("hap1_s_1", 1, 77, st[0], ("Painted", "Hap1"))]),
                         ("Scaffold_2", [("hap2_s_2", 1, 69, st[1], ("Painted", "Hap2"))]),
                         ("Scaffold_3", [("c_3", 1, 20, st[2], ("Contaminant",)), ("c_4", 1, 22, st[3], ("Contaminant",))]),
-                        ("Scaffold_4", [("h_5", 1, 18, 1, ("Haplotig", "Hap1"))])], 3)
+                        ("Scaffold_4", [("h_5", 1, 18, 1, ("Haplotig", "Hap1"))]),
+                        # a Haplotig-tagged sliver shorter than a texel, deep inside a contig: its lookup result
+                        # loses its only row and NO scaffold is written for it
+                        ("Scaffold_5", [("c_6", 30, 31, 1, ("Haplotig", "Hap1"))]),
+                        ("Scaffold_6", [("c_6", 1, 60, 1, ("Painted", "Hap1"))])], 3)
     ba, outs = run_pipeline(inp, prtxt)
     stats = ba.assembly_stats
     ok = stats_ok(inp, outs, stats)
@@ -114,6 +118,11 @@ def conditions(tier):
         n = "cut1g_" + sfx(cs, ps)
         q.append(("one_cut_FGF_halves_rejoined_" + sfx(cs, ps), _m(n, [("S1", "FGF")], ((1,), [(0, 0, 0), (0, 0, 1)]), cs, ps), n, 900,
                   f"input F G F (contig strands {cs}) cut once, halves re-joined in one painted Pretext scaffold, piece strands {ps}"))
+    for ps, cs5 in (((1, 1), (1, -1, 1, 1, -1)), ((-1, 1), (-1, -1, 1, -1, 1))):
+        n = "fd_" + sfx((), ps)
+        q.append(("false_duplicate_assembly_keeps_and_makes_junctions_" + sfx((), ps), _m(n, [("S1", "FGF"), ("S2", "FF"), ("S3", "F")], ((0, 0, 0), [(0, 0, 0), (0, 1, 0), (1, 2, 0)]), cs5, ps + (1,),
+                                                                                          tags=[("FalseDuplicate",), ("FalseDuplicate",), P]), n, 900,
+                  f"two whole input scaffolds (mixed contig strands) tagged FalseDuplicate in ONE Pretext scaffold (their junctions are kept, one join is made, all inside the FalseDuplicate assembly), piece strands {ps}"))
     n = "haplotig_count"
     q.append(("haplotig_scaffolds_counted", _m(n, [("S1", "FGF"), ("S2", "F"), ("S3", "FF")], ((0, 0, 0), [(0, 0, 0), (1, 1, 0), (2, 2, 0)]), False, (1, -1, 1),
                                                tags=[P, ("Haplotig",), ("Haplotig",)]), n, 600,
